@@ -1,7 +1,7 @@
 SPECIFICATION Spec
 CONSTANTS
   Dims <- DimsQ
-  Brushes = { "d1", "d2", "d3", "d4" }
+  Brushes = { "d1", "d2", "d3" }
   Levels <- NegPos
   Variant = "paper"
   DesignSet <- AllLevels
